@@ -5,10 +5,11 @@ cd /verif
 [ -n "$(git -C /repo status --porcelain)" ] && { echo "/repo not clean"; exit 2; }
 for d in /verif/seeded/${1:-*}/; do
   n=$(basename "$d"); c=${n%%-*}
+  cr=$(python3 -c "import json,sys;print(json.load(open(sys.argv[1])).get('check_run',''))" "$d/meta.json" 2>/dev/null); [ -n "$cr" ] && c=$cr
   if ! git -C /repo apply --check "$d/patch.diff" 2>/dev/null; then echo "$n: patch no longer applies"; continue; fi
   git -C /repo apply "$d/patch.diff"
   out=$(./run.sh "$c" quick 2>&1); rc=$?
   git -C /repo checkout -- . ; git -C /repo clean -fdq -- . >/dev/null 2>&1
   sigs=$(echo "$out" | grep -E "^  sig=" | sed 's/ occurrences.*//;s/^  sig=//' | tr '\n' ',' )
-  echo "$n: exit=$rc $sigs"
+  echo "$n [$c]: exit=$rc $sigs"
 done
